@@ -644,7 +644,30 @@ class Executor:
         return v
 
     def e_ListComp(self, n, fr):
+        sc = self._symbolic_comp(n, fr)
+        if sc is not None:
+            return sc
         return list(self._comp(n, fr, lambda f: self.eval(n.elt, f)))
+
+    def _symbolic_comp(self, n, fr):
+        """[elt for t in range(..symbolic..)] with a pure elt and pure range bounds: core.SymComp"""
+        if len(n.generators) != 1:
+            return None
+        g = n.generators[0]
+        if g.ifs or not isinstance(g.target, ast.Name) or not _is_pure(n.elt):
+            return None
+        it = g.iter
+        if not (isinstance(it, ast.Call) and isinstance(it.func, ast.Name) and it.func.id == "range"
+                and not it.keywords and all(_is_pure(a) for a in it.args)):
+            return None
+        rng = self.shared.lib.as_symbolic_range(self, self.eval(it, fr))
+        if rng is None:
+            return None
+        lo, hi = rng
+        iv = self.st.fresh("lc", INT)
+        f = Frame(fr.qualname, fr.module, parent=fr)
+        f.vars[g.target.id] = Sym(iv)
+        return C.SymComp(lo, hi, iv, self.eval(n.elt, f))
 
     def e_GeneratorExp(self, n, fr):
         return list(self._comp(n, fr, lambda f: self.eval(n.elt, f)))
@@ -1426,6 +1449,7 @@ class Executor:
             it = lo
         discover = self.phase == "discover"
         L = LoopCtx(self, fr, entry, it=it, lo=lo, hi=hi, key=key)
+        L.heap_entry = {n: dict(o.fields) for n, o in self.heap.items() if isinstance(o, Obj)}
         tag = f"{_short(fr.qualname)}.loop{ordinal}"
         # (i) invariant on entry
         if not discover:
